@@ -32,6 +32,13 @@ Alphabet ==
     [] Slice = "opt2" ->    \* loops (budget), output inside loops, multi-operand restore, reads and exits
          CmdSet({0}, {1, 2}, {1, 3}, {Nil, H(2)}) \cup CmdSet({1}, {1, 2}, {1, 3}, {Nil, H(2), Q(H(2), Nil)})
          \cup CmdSet({3, 4}, {2}, {3, 4}, {Nil}) \cup CmdSet({5}, {1}, {0, 1, 3}, {Nil, H(13)})
+    [] Slice = "ret" ->     \* conditional jump back, stack switch to an output stack, return jump: what a level-2
+                            \* compiled program must carry over (labels and a pending return-jump target)
+         {[k |-> 0, h |-> 1, d |-> 1, a |-> Nil], [k |-> 0, h |-> 1, d |-> 3, a |-> Nil],
+          [k |-> 1, h |-> 1, d |-> 3, a |-> H(4)], [k |-> 1, h |-> 2, d |-> 3, a |-> Nil],
+          [k |-> 5, h |-> 1, d |-> 3, a |-> X(Nil, H(4))], [k |-> 5, h |-> 2, d |-> 1, a |-> Nil],
+          [k |-> 1, h |-> 1, d |-> 1, a |-> Nil], [k |-> 5, h |-> 1, d |-> 3, a |-> Nil],
+          [k |-> 0, h |-> 1, d |-> 1, a |-> H(13)]}
     [] Slice = "tiny" ->
          CmdSet({0}, {1, 2}, {1, 3}, {Nil}) \cup CmdSet({1, 3}, {1, 2}, {1, 3}, {Nil, H(2)}) \cup CmdSet({5}, {1}, {1, 2}, {Nil})
 
